@@ -5,7 +5,7 @@
    this characterises the answer: Some v iff v is THE first position where the
    depth returns to 0, None iff there is none in the span. *)
 From Coq Require Import ZArith List Bool Lia.
-From PTK Require Import Lib.Sx Lib.Py Model.Document Model.C02_DocQueries Proofs.C02_Brackets.
+From PTK Require Import Lib.Sx Lib.Py Model.Document Model.C02_DocQueries Proofs.C02_Base Proofs.C02_Brackets.
 Import ListNotations.
 Open Scope Z_scope.
 
@@ -78,4 +78,70 @@ Proof.
     exists k. split; [exact Hv|]. split; [exact Hn|]. split; [lia|]. intros j Hj. specialize (Hpre j Hj). lia.
   - intros (k & -> & Hn & Hnet & Hpre). apply scan_left_complete; try assumption; try lia.
     intros j Hj. specialize (Hpre j Hj). lia.
+Qed.
+
+(* ---------------------------------------------------------------------- *)
+(* Round 7: the same on the Document, in text coordinates *)
+
+Lemma nth_error_firstn_lt {T} (l : list T) : forall n k, (k < n)%nat -> nth_error (firstn n l) k = nth_error l k.
+Proof.
+  induction l as [|x l IH]; intros [|n] [|k] H; cbn [firstn nth_error]; try reflexivity; try lia.
+  apply IH. lia.
+Qed.
+
+Theorem enclosing_right_complete d l r ep v :
+  valid d -> l <> r -> opt_is (current_char d) r = false -> 0 < v ->
+  dcur d + v < (match ep with None => len (dtext d) | Some e => Z.min (len (dtext d)) e end) ->
+  nth_error (dtext d) (Z.to_nat (dcur d + v)) = Some r ->
+  balanced_span l r (firstn (Z.to_nat (v - 1)) (skipn (Z.to_nat (dcur d + 1)) (dtext d))) ->
+  find_enclosing_bracket_right d l r ep = Some v.
+Proof.
+  intros [Hc0 Hc1] Hlr Ec Hv He Hn [Hnet Hpre]. unfold find_enclosing_bracket_right. cbv zeta. rewrite Ec.
+  set (e := match ep with None => len (dtext d) | Some e => Z.min (len (dtext d)) e end) in *.
+  assert (Hel : e <= len (dtext d)) by (unfold e; destruct ep; lia).
+  destruct (e <? 0) eqn:Ee; [lia|].
+  rewrite (slice2_in_range (dtext d) (dcur d + 1) e) by lia.
+  set (X := skipn (Z.to_nat (dcur d + 1)) (dtext d)) in *.
+  set (k := Z.to_nat (v - 1)) in *.
+  assert (Hk : (k < Z.to_nat (e - (dcur d + 1)))%nat) by lia.
+  replace v with (1 + Z.of_nat k) by lia.
+  apply scan_right_complete; [exact Hlr|lia| | |].
+  - rewrite nth_error_firstn_lt by exact Hk. unfold X. rewrite nth_error_skipn_eq.
+    replace (Z.to_nat (dcur d + 1) + k)%nat with (Z.to_nat (dcur d + v)) by lia. exact Hn.
+  - rewrite firstn_firstn_le by lia. lia.
+  - intros j Hj. rewrite firstn_firstn_le by lia. specialize (Hpre j).
+    rewrite firstn_firstn_le in Hpre by exact Hj. lia.
+Qed.
+
+Theorem enclosing_left_complete d l r sp v :
+  valid d -> l <> r -> opt_is (current_char d) l = false -> v < 0 ->
+  (match sp with None => 0 | Some s => Z.max 0 s end) <= dcur d + v ->
+  nth_error (dtext d) (Z.to_nat (dcur d + v)) = Some l ->
+  balanced_span r l (firstn (Z.to_nat (- v - 1)) (rev (firstn (Z.to_nat (dcur d)) (dtext d)))) ->
+  find_enclosing_bracket_left d l r sp = Some v.
+Proof.
+  intros [Hc0 Hc1] Hlr Ec Hv Hs Hn [Hnet Hpre]. unfold find_enclosing_bracket_left. cbv zeta. rewrite Ec.
+  set (s0 := match sp with None => 0 | Some s => Z.max 0 s end) in *.
+  assert (Hs0 : 0 <= s0) by (unfold s0; destruct sp; lia).
+  set (k := Z.to_nat (- v - 1)) in *.
+  replace v with (- (1 + Z.of_nat k)) by lia.
+  assert (Hfk : forall j : nat, (j <= k)%nat ->
+            firstn j (rev (slice2 (dtext d) s0 (dcur d))) =
+            firstn j (rev (firstn (Z.to_nat (dcur d)) (dtext d)))).
+  { intros j Hj. apply slice2_rev_prefix; lia. }
+  apply scan_left_complete; [exact Hlr|lia| | |].
+  - set (X := slice2 (dtext d) s0 (dcur d)).
+    assert (HX : X = firstn (Z.to_nat (dcur d - s0)) (skipn (Z.to_nat s0) (dtext d)))
+      by (apply slice2_in_range; lia).
+    assert (HL : length X = Z.to_nat (dcur d - s0)).
+    { rewrite HX, firstn_length, skipn_length. unfold len in Hc1. lia. }
+    assert (Hx : nth_error X (Z.to_nat (dcur d + v - s0)) = Some l).
+    { rewrite HX, nth_error_firstn_lt by lia. rewrite nth_error_skipn_eq.
+      replace (Z.to_nat s0 + Z.to_nat (dcur d + v - s0))%nat with (Z.to_nat (dcur d + v)) by lia. exact Hn. }
+    rewrite <- (rev_involutive X) in Hx. apply nth_error_rev_some in Hx as [_ Hx].
+    rewrite length_rev_eq, HL in Hx.
+    replace (Z.to_nat (dcur d - s0) - 1 - Z.to_nat (dcur d + v - s0))%nat with k in Hx by lia. exact Hx.
+  - rewrite Hfk by lia. lia.
+  - intros j Hj. rewrite Hfk by exact Hj. specialize (Hpre j).
+    rewrite firstn_firstn_le in Hpre by exact Hj. lia.
 Qed.
